@@ -94,6 +94,9 @@ type Scenario struct {
 	Country     string `json:"country"`
 	DateFormat  string `json:"date_format"`
 	MaxResult   int    `json:"max_result_chars"`
+	// the environment's input collation as the host supplies it: "" = not given; "<empty>" = given as the empty string;
+	// the three defined collations; anything else is a value goflow does not define
+	Collation string `json:"input_collation"`
 
 	RandBits uint64 `json:"rand_bits"` // the 53 bits the random source hands to Float64
 }
@@ -119,6 +122,19 @@ func (sc *Scenario) effLang() int {
 		return sc.ChildLang
 	}
 	return sc.ContactLang
+}
+
+// the collation value handed to goflow, and whether goflow defines it
+func (sc *Scenario) collation() (value string, given bool, defined bool) {
+	switch sc.Collation {
+	case "":
+		return "", false, true
+	case "<empty>":
+		return "", true, false
+	case "default", "confusables", "arabic_variants":
+		return sc.Collation, true, true
+	}
+	return sc.Collation, true, false
 }
 
 func (sc *Scenario) destUUID(d int) string {
@@ -413,6 +429,7 @@ func genCommon(r *hx.Rand, sc *Scenario) {
 	sc.Country = hx.Pick(r, []string{"US", "RW", "US", ""})
 	sc.DateFormat = hx.Pick(r, []string{"DD-MM-YYYY", "MM-DD-YYYY", "YYYY-MM-DD"})
 	sc.MaxResult = hx.Pick(r, []int{640, 640, 640, 640, 8, 3, 0})
+	sc.Collation = hx.Pick(r, []string{"", "", "", "default", "confusables", "arabic_variants", "arabic_variants", "<empty>", "unicode"})
 	sc.Loc = Loc{}
 	sc.TimeoutCat = -1
 	sc.Default = -1
